@@ -54,6 +54,9 @@ type BigSpec struct {
 	Depth      int `json:"depth"`
 	ZeroChains int `json:"zero_chains"`
 	Ones       int `json:"ones"` // so many chains (before the zero ones) have the leaf values 1 and 0
+	// Deep: further root children "d0", "d1", ... each the top of ONE chain of that many frames (self 0, one leaf with
+	// self 5 at the bottom): stacks of 1000-2000 frames
+	Deep []int `json:"deep,omitempty"`
 }
 
 func buildBig(b *BigSpec) *tree.VerifNode {
@@ -79,6 +82,18 @@ func buildBig(b *BigSpec) *tree.VerifNode {
 		cur.Children = []*tree.VerifNode{{Name: []byte("x"), Self: l1, Total: l1}, {Name: []byte("y"), Self: l2, Total: l2}}
 		root.Children = append(root.Children, top)
 		root.Total += tot
+	}
+	for i, depth := range b.Deep {
+		top := &tree.VerifNode{Name: []byte(fmt.Sprintf("d%d", i)), Total: 5}
+		cur := top
+		for d := 1; d < depth-1; d++ {
+			n := &tree.VerifNode{Name: []byte("g"), Total: 5}
+			cur.Children = []*tree.VerifNode{n}
+			cur = n
+		}
+		cur.Children = []*tree.VerifNode{{Name: []byte("leaf"), Self: 5, Total: 5}}
+		root.Children = append(root.Children, top)
+		root.Total += 5
 	}
 	return root
 }
@@ -621,7 +636,11 @@ func genBigInput(r *rand.Rand) Input {
 	depth := 250
 	chains := lib.Range(r, 265, 355) // 66.5k .. 89k nodes
 	b := &BigSpec{Chains: chains, Depth: depth, ZeroChains: lib.Range(r, 0, 3), Ones: lib.Range(r, 60, 140)}
+	b.Deep = lib.Pick(r, [][]int{{1030}, {1024, 2000}, {1100, 1025}, {1000, 1026}})
 	n := chains*(depth+1) + 1
+	for _, d := range b.Deep {
+		n += d
+	}
 	return Input{Big: b, Cap: lib.Pick(r, []int{n + 1, n + 7, 100000, 131072}), Mode: "big", Pre: [][]byte{[]byte("c00"), []byte("fx")}}
 }
 
